@@ -96,6 +96,31 @@ fn check_u32(c: &SeqCase, obs: &mut Obs) -> Verdict {
         }
         obs.class("buffers edited in place after an earlier diff");
     }
+    // mode 6: the two sequences are windows of larger buffers (old behind 3/4 as many unrelated items
+    // as it is long, new behind 3), diffed through the ranged entry point: the work is that of the windows
+    let windows = c.mode == 6;
+    if windows {
+        let mut ob: Vec<Cnt> = (0..(oc.len() * 3 / 4).max(1) as u32).map(|i| Cnt(50_000_000 + i)).collect();
+        let start = ob.len();
+        ob.extend(oc.iter().cloned());
+        ob.extend((0..17u32).map(|i| Cnt(60_000_000 + i)));
+        let mut nb: Vec<Cnt> = vec![Cnt(70_000_000), Cnt(70_000_001), Cnt(70_000_002)];
+        nb.extend(nc.iter().cloned());
+        nb.push(Cnt(70_000_003));
+        let (or, nr) = (start..start + oc.len(), 3..3 + nc.len());
+        oc = ob;
+        nc = nb;
+        counting::reset();
+        counting::set_limit(hard_limit);
+        let r = guard(|| {
+            let mut rec = Recorder::new();
+            algorithms::diff(alg_of(alg), &mut rec, &oc[..], or.clone(), &nc[..], nr.clone()).unwrap();
+            rec.events
+        });
+        let cmp = counting::total();
+        counting::reset();
+        return finish_u32(c, alg, r, cmp, n, m, true, obs);
+    }
     counting::reset();
     counting::set_limit(hard_limit);
     let r = guard(|| {
@@ -105,9 +130,14 @@ fn check_u32(c: &SeqCase, obs: &mut Obs) -> Verdict {
     });
     let cmp = counting::total();
     counting::reset();
+    finish_u32(c, alg, r, cmp, n, m, false, obs)
+}
+
+#[allow(clippy::too_many_arguments)]
+fn finish_u32(c: &SeqCase, alg: u8, r: Result<Vec<Ev>, String>, cmp: u64, n: u64, m: u64, windows: bool, obs: &mut Obs) -> Verdict {
     let ev = match r {
         Ok(e) => e,
-        Err(p) => return Verdict::Fail(format!("{}: {} (after {} comparisons, N={}, M={})", alg_name(alg), p, cmp, n, m)),
+        Err(p) => return Verdict::Fail(format!("{}{}: {} (after {} comparisons, N={}, M={})", alg_name(alg), if windows { " over windows of larger buffers" } else { "" }, p, cmp, n, m)),
     };
     let (d, i, _) = events_cost(&ev);
     let mut dd = (d + i) as u64;
@@ -124,12 +154,13 @@ fn check_u32(c: &SeqCase, obs: &mut Obs) -> Verdict {
     obs.metric(if alg == 0 { "Myers comparisons / ((N+M+1)(D+1))" } else { "Patience comparisons / ((N+M+1)(D+1))" }, ratio);
     if cmp > bound {
         return Verdict::Fail(format!(
-            "{}: {} element comparisons for N={}, M={}, D={}: more than {}*(N+M+1)*(D+1) = {}",
-            alg_name(alg), cmp, n, m, dd, cc, bound
+            "{}{}: {} element comparisons for N={}, M={}, D={}: more than {}*(N+M+1)*(D+1) = {}",
+            alg_name(alg), if windows { " over windows of larger buffers (algorithms::diff with ranges)" } else { "" }, cmp, n, m, dd, cc, bound
         ));
     }
     obs.nontrivial = n + m >= 200 && dd <= (n + m) / 20;
     obs.class(alg_name(alg));
+    obs.class_if(windows, "windows of larger buffers (non-zero range starts)");
     obs.class_if(dd == 0, "identical inputs");
     obs.class_if(n + m >= 200 && dd <= (n + m) / 20, "near-identical, N+M >= 200");
     obs.class_if(dd >= (n + m) / 2 && n + m > 20, "mostly unrelated");
@@ -228,6 +259,8 @@ fn strat(tier: Tier) -> BoxedStrategy<SeqCase> {
             // 1 case in 10 (of moderate size) uses byte-record items
             if m == 0 && c.old.len() + c.new.len() <= 1200 {
                 c.mode = 5;
+            } else if m == 1 || m == 2 {
+                c.mode = 6;
             }
             c
         })
@@ -320,6 +353,29 @@ fn enum_large(tier: Tier, f: &mut dyn FnMut(SeqCase) -> bool) {
             }
         }
     }
+    // the same kind of input as windows of larger buffers (mode 6): 8000 distinct items, the first and
+    // the last one edited
+    for alg in 0..2u8 {
+        let a: Vec<u32> = (0..8000u32).collect();
+        let mut b = a.clone();
+        b[0] = 7_100_000;
+        b[7999] = 7_100_001;
+        let mut c = SeqCase::full(alg, a, b);
+        c.mode = 6;
+        if !f(c) {
+            return;
+        }
+    }
+    // unrelated inputs of distinct items (D = N+M in the thousands): the claim is linear in D as well
+    for &n in &[1500u32, 3000, 5000] {
+        for alg in 0..2u8 {
+            let a: Vec<u32> = (0..n).collect();
+            let b: Vec<u32> = (1_000_000..1_000_000 + n).collect();
+            if !f(SeqCase::full(alg, a, b)) {
+                return;
+            }
+        }
+    }
     // records: 2500 distinct fixed-width records, one edit
     for alg in 0..2u8 {
         let a: Vec<u32> = (0..2500u32).collect();
@@ -337,7 +393,7 @@ impl Prop for C19 {
     type Case = SeqCase;
     const ID: &'static str = "C19";
     fn rule() -> String {
-        "cases = (Myers|Patience, old, new) over an element type whose PartialEq counts calls; a stage of fixed inputs of 20 000-150 000 near-identical items and of 2^k-1 vs 2^k+1 distinct items (k = 8..13); a third of the random cases are measured on buffers that held other content in an earlier diff and were edited in place; 1 random case in 10 uses 50-byte record items sharing a 40-byte head (so hashing/equality of long keys is exercised); families: near-identical (0-6 edits incl. block moves) up to 400 (quick) / 3000 (thorough) items over alphabets {2,4,26,10^3,10^5}, periodic with shift, reversed, truncated, unrelated, the shared small mixture, sequences in which every value occurs 1-3 times a few positions apart (interleaved copies), a block followed by the same values rearranged (second occurrences far away), and 1200-3200 (thorough: 9000-24000) items with 20-200 (400) scattered single-item edits on periodic or random content. Oracle: comparisons <= c*(N+M+1)*(D+1) with D = size of the reported script (Myers: the smaller of that and the shortest script by an independent LCS reference when N*M <= 10^6), c = 4 (Myers) / 6 (Patience); the counter aborts the run at 64x the largest possible bound so a quadratic or non-terminating change ends as a measured violation. The maximum measured ratio is reported under metrics_max. Non-trivial = N+M >= 200 and D <= (N+M)/20 (the near-linear claim); distinct = distinct serialized case.".into()
+        "cases = (Myers|Patience, old, new) over an element type whose PartialEq counts calls; a stage of fixed inputs of 20 000-150 000 near-identical items and of 2^k-1 vs 2^k+1 distinct items (k = 8..13); a fifth of the random cases (and a fixed 8000-item input) are windows of larger buffers diffed through algorithms::diff with non-zero range starts; fixed unrelated inputs of 1500, 3000 and 5000 distinct items per side (D in the thousands); a third of the random cases are measured on buffers that held other content in an earlier diff and were edited in place; 1 random case in 10 uses 50-byte record items sharing a 40-byte head (so hashing/equality of long keys is exercised); families: near-identical (0-6 edits incl. block moves) up to 400 (quick) / 3000 (thorough) items over alphabets {2,4,26,10^3,10^5}, periodic with shift, reversed, truncated, unrelated, the shared small mixture, sequences in which every value occurs 1-3 times a few positions apart (interleaved copies), a block followed by the same values rearranged (second occurrences far away), and 1200-3200 (thorough: 9000-24000) items with 20-200 (400) scattered single-item edits on periodic or random content. Oracle: comparisons <= c*(N+M+1)*(D+1) with D = size of the reported script (Myers: the smaller of that and the shortest script by an independent LCS reference when N*M <= 10^6), c = 4 (Myers) / 6 (Patience); the counter aborts the run at 64x the largest possible bound so a quadratic or non-terminating change ends as a measured violation. The maximum measured ratio is reported under metrics_max. Non-trivial = N+M >= 200 and D <= (N+M)/20 (the near-linear claim); distinct = distinct serialized case.".into()
     }
     fn assumptions() -> Vec<String> {
         vec!["the constants are calibrated (measured maxima about 0.7 Myers / 1.6 Patience), not derived: the check decides 'within c x of the documented O((N+M)D)'".into()]
